@@ -10,7 +10,7 @@ what an ACCEPTED template looks like.
 Weakest-precondition style: `TW x s Q` = "if `x` answers `ok a s'` from `s` then `Q a s'`".
 -/
 import TeraModel.Lemmas.AstLegal
-import TeraModel.Model.TemplateParser
+import TeraModel.Lemmas.TemplateParserHeight
 namespace Tera.TParser
 open Tera Tera.Parser
 
@@ -206,6 +206,13 @@ theorem TW.expr {ex : Bool → Nat → P Expr} (hex : ∀ il m, PW (ex il m) Clo
   unfold TParser.expr
   exact TW.liftV (hex _ _) h
 
+theorem TW.exprV_swap {ex : Bool → Nat → P Expr} {V : Expr → Prop} {m : Nat}
+    {s : TState} {Q : Expr → TState → Prop}
+    (h : ∀ e p', V e → Q e { s with p := p' }) (hex : ∀ il m, PW (ex il m) V) :
+    TW (TParser.expr ex m) s Q := by
+  unfold TParser.expr
+  exact TW.liftV (hex _ _) h
+
 theorem TW.getState {s : TState} {Q : TState → TState → Prop} (h : Q s s) : TW getState s Q := h
 theorem TW.modify (f : TState → TState) {s : TState} {Q : Unit → TState → Prop} (h : Q () (f s)) :
     TW (modify f) s Q := h
@@ -288,6 +295,7 @@ theorem TW.parseSet (g : Bool) (s : TState) : TW (parseSet recU ex g) s (fun nd 
     · simp [Node.blockNames]
     · simpa [Node.legal] using h
 
+omit Hex in
 theorem TW.parseComponentWithBody (s : TState) :
     TW (parseComponentWithBody recU ex) s (fun e s' => Post s [.expression e] s') := by
   have hrec := fun ec s => TW.cps (HU ec s)
@@ -298,6 +306,7 @@ theorem TW.parseComponentWithBody (s : TState) :
     · simp [Node.blockNames]
     · simpa [Node.legal] using h
 
+omit Hex in
 /-- what `parse_component_definition` leaves: the state as `parse_tag` records the definition -/
 theorem TW.parseComponentDefinition (s : TState) :
     TW (parseComponentDefinition C recU ex) s
@@ -315,8 +324,8 @@ theorem TW.parseTag (isFirst : Bool) (s : TState) :
   have h1 := fun g s => TW.cps (TW.parseSet Hex HU g s)
   have h2 := fun s => TW.cps (TW.parseForLoop Hex HU s)
   have h3 := fun n s => TW.cps (TW.parseIf Hex HU n s)
-  have h4 := fun s => TW.cps (TW.parseComponentDefinition (C := C) Hex HU s)
-  have h5 := fun s => TW.cps (TW.parseComponentWithBody Hex HU s)
+  have h4 := fun s => TW.cps (TW.parseComponentDefinition (C := C) (ex := ex) HU s)
+  have h5 := fun s => TW.cps (TW.parseComponentWithBody (ex := ex) HU s)
   unfold TParser.parseTag
   twtac
   all_goals first
@@ -416,8 +425,7 @@ theorem parse_post (maxDepth : Nat) (toks : List Tok) (t : Template) (s : TState
   unfold parse at h
   simp only [] at h
   split at h <;> try cases h
-  trace_state
-  rename_i nodes s1 heq
+  rename_i _ nodes heq
   have := TW.of_eq heq (TW.parseUntil maxDepth .never _)
   obtain ⟨_, b1, _, l1, d1, e1⟩ := this
   simp only [abs] at b1 l1 d1 e1
@@ -426,5 +434,54 @@ theorem parse_post (maxDepth : Nat) (toks : List Tok) (t : Template) (s : TState
   rw [b1] at this
   have h2 : (Node.blockNamesList nodes).reverse.Nodup := by simpa using this
   exact (List.pairwise_reverse.1 h2).imp (fun h => Ne.symm h)
+
+/-! ### the exact rules of `parse_tag` for `break`, `continue`, `extends` -/
+
+section rules
+variable (C : Bool → Cfg) (recU : EndCheck → T (List Node)) (ex : Bool → Nat → P Expr)
+
+/-- `{% break %}`: accepted exactly when the walk finds a `for` body before any capture -/
+theorem parseTag_break (f : Bool) (s : TState) (rest : List Tok)
+    (hs : s.p.toks = .ident "break" :: rest) :
+    parseTag C recU ex f s =
+      if walk s.bodyContexts then .ok (some .break) { s with p := { s.p with toks := rest } }
+      else .err := by
+  obtain ⟨⟨ts, a, b⟩, c1, c2, c3, c4, c5⟩ := s
+  simp only [] at hs; subst hs
+  unfold TParser.parseTag walk
+  simp only [tbind_def, T.bind_apply, TParser.lift, nextOrError, getState]
+  cases h : loopWalk c1.reverse with
+  | none => simp [T.err]
+  | some v => cases v <;> simp [T.err, tpure_apply]
+
+theorem parseTag_continue (f : Bool) (s : TState) (rest : List Tok)
+    (hs : s.p.toks = .ident "continue" :: rest) :
+    parseTag C recU ex f s =
+      if walk s.bodyContexts then .ok (some .continue) { s with p := { s.p with toks := rest } }
+      else .err := by
+  obtain ⟨⟨ts, a, b⟩, c1, c2, c3, c4, c5⟩ := s
+  simp only [] at hs; subst hs
+  unfold TParser.parseTag walk
+  simp only [tbind_def, T.bind_apply, TParser.lift, nextOrError, getState]
+  cases h : loopWalk c1.reverse with
+  | none => simp [T.err]
+  | some v => cases v <;> simp [T.err, tpure_apply]
+
+/-- `{% extends "name" %}`: accepted exactly when no parent is set yet, nothing but whitespace
+content precedes it IN THE CURRENT NODE LIST (`is_first_node`) and the body-context stack is
+empty; it then sets the parent and leaves no node -/
+theorem parseTag_extends (f : Bool) (s : TState) (name : String) (rest : List Tok)
+    (hs : s.p.toks = .ident "extends" :: .str name :: rest) :
+    parseTag C recU ex f s =
+      if s.parent = none ∧ f = true ∧ s.bodyContexts = [] then
+        .ok none { s with p := { s.p with toks := rest }, parent := some name }
+      else .err := by
+  obtain ⟨⟨ts, a, b⟩, c1, c2, c3, c4, c5⟩ := s
+  simp only [] at hs; subst hs
+  unfold TParser.parseTag
+  simp only [tbind_def, T.bind_apply, TParser.lift, nextOrError, getState]
+  cases c4 <;> cases f <;> cases c1 <;> simp [T.err, T.bind_apply, TParser.modify] <;> rfl
+
+end rules
 
 end Tera.TParser
